@@ -89,6 +89,15 @@ func NewTermStore() *TermStore {
 	return ts
 }
 
+// ResetTable forgets the hash-consing table (ids stay unique for the solver's
+// lifetime); called between paths so that the table does not grow without bound.
+func (ts *TermStore) ResetTable() {
+	ts.tab = map[termKey]*Term{}
+	ts.vars = map[string]*Term{}
+	ts.True = ts.mk(&Term{op: OpConst, w: 0, c: 1})
+	ts.False = ts.mk(&Term{op: OpConst, w: 0, c: 0})
+}
+
 func tid(t *Term) uint32 {
 	if t == nil {
 		return 0
